@@ -81,6 +81,9 @@ Next == \E g \in G : Start(g) \/ Fast(g) \/ Lock(g) \/ Slow(g) \/ Alloc(g) \/ Fi
 Spec == Init /\ [][Next]_vars
 NoRace == ~race
 LookupSeesFullMap == \A g \in G : \A i \in 1..Len(res[g]) : res[g][i] = "full"
+\* refinement: the protocol implements "built once, atomically; lookups see a full map" (AtomicMaps.tla)
+Abs == INSTANCE AtomicMaps WITH amap <- [l \in L |-> IF done[l] = 1 THEN "full" ELSE "nil"], ares <- res
+ImplementsAtomicMaps == Abs!ASpec
 \* every lookup went through a completely built map, i.e. returned what a sequential run returns
 ResultsEqualSequential == LookupSeesFullMap
 BuiltAtMostOnce == \A l \in L : Cardinality({g \in G : pc[g] \in {"alloc","fill","store"} /\ lang[g] = l}) <= 1
